@@ -552,6 +552,26 @@ class Ctx:
             cov.update(extra_cov)
         cov.setdefault("evaluations", 0)
         cov.setdefault("distinct_nontrivial", 0)
+        # keys the evidence schema types: a check that used one of them for a breakdown keeps
+        # the breakdown under <key>_detail and the schema key gets the count it can derive
+        typed = {"evaluations": int, "distinct_nontrivial": int, "states": int, "transitions": int,
+                 "traces_validated_against_impl": int, "obligations": int, "discharged": int, "programs": int,
+                 "disagreements_checked": int, "rule": str, "checker_cmd": str, "explanation": str,
+                 "samples": list, "trusted_base": list, "exhaustive": bool}
+        for k, ty in typed.items():
+            if k in cov and (not isinstance(cov[k], ty) or (ty is int and isinstance(cov[k], bool))):
+                v = cov.pop(k)
+                cov[k + "_detail"] = v
+                if ty is int and isinstance(v, dict) and isinstance(v.get(k), int):
+                    cov[k] = v[k]
+                elif ty is int and isinstance(v, (list, dict)):
+                    cov[k] = len(v)
+                elif ty is str:
+                    cov[k] = json.dumps(v)[:2000]
+                elif ty is list:
+                    cov[k] = [v]
+                elif ty is bool:
+                    cov[k] = bool(v)
         ev = {
             "property_id": pid, "tier": self.tier, "seed": self.seed, "level": level,
             "coverage": cov, "assumptions": self.assumptions + self.notes, "wall_s": round(wall, 2),
